@@ -206,6 +206,9 @@ def gen_cases(rng, n, depth, entries, stable_share=0.75):
         full = ov + (TOWER if tower else [])
         if not stable and not any(mentions(v, [k for k in allkeys if k != a]) for a, v in full):
             stable = True      # nothing chained after all
+        if stable and any(mentions(v, [k for k in allkeys if k != a]) for a, v in full):
+            # e.g. {List[int]: List[int] | str, int: object}: the replacement of one key mentions another key
+            stable = False
         if stable and tower and any(mentions(v, [t[0] for t in TOWER] + [['cls', 'int']]) and a != ['cls', 'int'] for a, v in ov):
             # a user replacement mentioning float/complex/int under the tower is chained
             stable = False
